@@ -1204,3 +1204,135 @@ Section Exact.
     - unfold finish_infinite_limits. apply keeps_map; [apply pr_finish; reflexivity|apply calm_finish1].
   Qed.
 End Exact.
+
+(* ---- how a track at its limit takes part in an iteration of distribute_space_up_to_limits: it accepts the increase
+   exactly when 0 < increase <= THRESHOLD (any affected-filter, proportion, increase; NaN and infinities included) *)
+Lemma bump_at_limit aff p prop limit inc (t : track XQ) b :
+  prop t = Fin b -> limit t = Fin b ->
+  bump aff p prop limit inc t =
+  if aff t && x_ltb (Fin 0) (x_mul inc (p t)) && x_leb (x_mul inc (p t)) (Fin T_q)
+  then set_incurred t (x_add (incurred t) (x_mul inc (p t))) else t.
+Proof.
+  intros Ep El. unfold bump. destruct (aff t); [|reflexivity]. cbv zeta. rewrite Ep, El, threshold_xq. xq0.
+  cbn [andb]. destruct (x_mul inc (p t)) as [y| | |]; cbn [x_ltb x_leb x_add andb]; try reflexivity.
+  - destruct (negb (Qle_bool y 0)); [|reflexivity]. cbn [andb].
+    destruct (Qle_bool (b + y) (b + T_q)) eqn:E1; destruct (Qle_bool y T_q) eqn:E2; try reflexivity; exfalso.
+    + apply Qle_bool_iff in E1. apply Qle_bool_false in E2. lra.
+    + apply Qle_bool_false in E1. apply Qle_bool_iff in E2. lra.
+Qed.
+
+(* ==================================================================================================================
+   The whole track_sizing_algorithm on a track whose min and max sizing function are the same definite length *)
+Lemma nth_map_some {A B} (f : A -> B) l i x : nth_error l i = Some x -> nth_error (map f l) i = Some (f x).
+Proof. apply map_nth_error. Qed.
+
+Lemma free_pos_definite (a : avail_space XQ) u sp :
+  compute_free_space a u = Fin sp -> x_ltb (Fin 0) (Fin sp) = true -> exists s, a = Definite s.
+Proof.
+  destruct a; cbn [compute_free_space]; xq0; eauto; try discriminate.
+  intro E. inversion E; subst. simpl. discriminate.
+Qed.
+
+Section Whole.
+  Variable contrib : item XQ -> ckind -> XQ.
+  Variables amin amax : option XQ.
+  Variable stretch : bool.
+  Variable avail : avail_space XQ.
+  Variable inner : option XQ.
+  Variable items : list (item XQ).
+
+  Lemma rigid_not_fr t : rigid inner t -> is_fr (maxf t) = false /\ is_auto (maxf t) = false /\ is_fit_content (maxf t) = false.
+  Proof.
+    intros [_ R2]. destruct (definite_cases _ _ R2) as [[w E]|[w [s [E _]]]]; rewrite E; auto.
+  Qed.
+
+  (* 11.7 and 11.8 do not touch it *)
+  Lemma expand_stretch_keep ts i t : nth_error ts i = Some t -> rigid inner t -> forall av items',
+    nth_error (let ts3 := expand_flexible_tracks amin amax av items' ts in
+               if stretch then stretch_auto_tracks amin av ts3 else ts3) i = Some t.
+  Proof.
+    intros Ht Hr av items'. destruct (rigid_not_fr t Hr) as [Hfr [Hau _]].
+    assert (H3 : nth_error (expand_flexible_tracks amin amax av items' ts) i = Some t).
+    { unfold expand_flexible_tracks, apply_flex_fraction. rewrite (nth_map_some _ _ _ _ Ht). unfold expand_one. rewrite Hfr. reflexivity. }
+    cbv zeta. destruct stretch; [|exact H3].
+    unfold stretch_auto_tracks. destruct (length _); [exact H3|]. destruct (ltb _ _); [|exact H3].
+    rewrite (nth_map_some _ _ _ _ H3). rewrite Hau. reflexivity.
+  Qed.
+
+  Definition after_intrinsic (tracks : list (track XQ)) : list (track XQ) :=
+    resolve_intrinsic_track_sizes contrib inner avail items (initialize_track_sizes inner tracks).
+
+  Theorem fixed_exact_whole tracks i t v :
+    nth_error tracks i = Some t ->
+    minf t = maxf t -> definite_value inner (minf t) = Some (Fin v) ->
+    incurred t = Fin 0 -> base_planned t = Fin 0 -> limit_planned t = Fin 0 ->
+    (forall it, In it items -> alone it i) ->
+    exists t' b, nth_error (track_sizing_algorithm_full contrib amin amax stretch avail inner items tracks) i = Some t' /\
+      base_size t' = Fin b /\
+      v <= b <= v + inject_Z (Z.of_nat (distribute_fuel tracks)) * T_q /\
+      ((forall s, avail <> Definite s) -> b == v) /\
+      (G inner (after_intrinsic tracks) = 0%nat -> b == v).
+  Proof.
+    intros Ht Hmm Hv Hinc Hbp Hlp Hal.
+    assert (Hfuel : 0 <= inject_Z (Z.of_nat (distribute_fuel tracks)) * T_q).
+    { pose proof T_q_pos. assert (0 <= inject_Z (Z.of_nat (distribute_fuel tracks))) by (change 0 with (inject_Z 0); rewrite <- Zle_Qle; lia). nra. }
+    (* 11.4 *)
+    set (ts0 := initialize_track_sizes inner tracks).
+    assert (H0 : exists t0, nth_error ts0 i = Some t0 /\ rigid inner t0 /\ calm v t0 /\ base_size t0 = Fin v).
+    { exists (set_limit (set_base t (Fin v)) (Fin v)). split.
+      - unfold ts0, initialize_track_sizes. rewrite (nth_map_some _ _ _ _ Ht). rewrite <- Hmm, Hv. xq0.
+        destruct (x_ltb (Fin v) (Fin v)); reflexivity.
+      - split; [|split; [|reflexivity]].
+        + unfold rigid, is_definite_sf. destruct t; cbn in *. rewrite <- Hmm, Hv. auto.
+        + unfold calm. destruct t; cbn in *. subst. repeat split; eexists; split; reflexivity. }
+    destruct H0 as [t0 [E0 [R0 [C0 B0]]]].
+    unfold track_sizing_algorithm_full, track_sizing_algorithm. fold ts0. cbv zeta.
+    destruct (forallb _ ts0).
+    { exists t0, v. split; [exact E0|]. split; [exact B0|]. repeat split; try lra; intros; reflexivity. }
+    (* 11.5 *)
+    fold (after_intrinsic tracks). set (ts1 := after_intrinsic tracks).
+    destruct (intrinsic_keeps_rigid contrib inner avail i v items Hal (intrinsic_fuel items) ts0 t0 E0 R0 C0) as [t1 [E1 [R1 C1]]].
+    change (resolve_intrinsic_fuelled contrib inner avail (intrinsic_fuel items) items ts0) with ts1 in E1.
+    destruct C1 as [[b1 [Eb1 Hb1]] [[g1 [Eg1 Hg1]] [Ei1 _]]].
+    destruct (rigid_not_fr t1 R1) as [_ [_ Hfc]].
+    assert (Hlen : length ts1 = length tracks).
+    { unfold ts1, after_intrinsic, resolve_intrinsic_track_sizes. rewrite intrinsic_length. unfold initialize_track_sizes. apply map_length. }
+    (* 11.6 *)
+    assert (H2 : exists t2 b2, nth_error (maximise_tracks inner avail ts1) i = Some t2 /\ rigid inner t2 /\ base_size t2 = Fin b2 /\
+                   v <= b2 <= v + inject_Z (Z.of_nat (distribute_fuel tracks)) * T_q /\
+                   ((forall s, avail <> Definite s) -> b2 == v) /\ (G inner ts1 = 0%nat -> b2 == v)).
+    { rewrite maximise_unfold. cbv zeta.
+      assert (Hml : mlim inner t1 = Fin g1).
+      { unfold mlim, fit_content_limited_growth_limit, fit_content_limit. rewrite Eg1.
+        destruct (maxf t1); try discriminate Hfc; reflexivity. }
+      destruct (x_eqb _ PInf) eqn:Einf.
+      - exists (set_base t1 (growth_limit t1)), g1. split; [apply (nth_map_some (fun t => set_base t (growth_limit t)) _ _ _ E1)|].
+        split; [destruct t1; exact R1|]. split; [destruct t1; exact Eg1|]. repeat split; try lra; intros; lra.
+      - destruct (x_ltb (Fin 0) _) eqn:Epos.
+        + destruct (compute_free_space avail (fsum (map base_size ts1))) as [sp| | |] eqn:Efree; try discriminate.
+          assert (Hdef : exists s, avail = Definite s) by (eapply free_pos_definite; [exact Efree|exact Epos]).
+          destruct (Forall2_nth _ _ _ i t1 (mloop_bounded inner (distribute_fuel ts1) (Fin sp) ts1) E1) as [t' [E' [Hu Hbd]]].
+          assert (Htf : tfin inner t1) by (unfold tfin; rewrite Eb1, Hml, Ei1; simpl; auto).
+          destruct (Hbd Htf) as [F1 F2]. destruct (fin_inv _ F1) as [i' Ei'].
+          assert (Hsl : slack inner t1 == T_q).
+          { unfold slack. rewrite Eb1, Hml. simpl. pose proof T_q_pos. rewrite Q.max_r; lra. }
+          exists (set_incurred (set_base t' (x_add (base_size t') (incurred t'))) (Fin 0)), (b1 + i').
+          split; [unfold flush_incurred_to_base;
+                  exact (nth_map_some (fun t : track XQ => set_incurred (set_base t (add (base_size t) (incurred t))) zero) _ _ _ E')|].
+          split; [rewrite Hu; destruct t1; exact R1|].
+          split; [cbn [base_size set_incurred set_base]; rewrite (upd_base _ _ Hu), Eb1, Ei'; reflexivity|].
+          rewrite Ei1, Ei', Hsl in F2. simpl in F2.
+          assert (Hfl : distribute_fuel ts1 = distribute_fuel tracks) by (unfold distribute_fuel; rewrite Hlen; reflexivity).
+          rewrite Hfl in F2.
+          split; [lra|]. split.
+          * intro Hnd. destruct Hdef as [s Es]. exfalso. apply (Hnd s Es).
+          * intro Hg0. assert (El : mloop inner (distribute_fuel ts1) (Fin sp) ts1 = (Fin sp, ts1)).
+            { unfold distribute_fuel. destruct (2 * length ts1 + 8)%nat as [|f] eqn:Ef; [reflexivity|].
+              unfold mloop. cbn [distribute_loop]. fold (mstep inner). rewrite (mstep_none_G0 inner _ _ Hg0). reflexivity. }
+            rewrite El in E'. simpl in E'. rewrite E1 in E'. inversion E'; subst t'. rewrite Ei1 in Ei'. inversion Ei'. lra.
+        + exists t1, b1. split; [exact E1|]. split; [exact R1|]. split; [exact Eb1|]. repeat split; try lra; intros; lra. }
+    destruct H2 as [t2 [b2 [E2 [R2 [Eb2 Hrest]]]]].
+    exists t2, b2. split; [|split; [exact Eb2|exact Hrest]].
+    apply (expand_stretch_keep _ i t2 E2 R2).
+  Qed.
+End Whole.
